@@ -22,14 +22,52 @@ def build_javaparse():
     return True, ""
 
 
+def generate_census11():
+    """Recompute the census of syntactically partial operations of /repo/main.go and /repo/compiler/** (go/ast only),
+    compare it with known/c11_census_expected.json and regenerate lean/FV/Generated/Census11.lean."""
+    os.makedirs(V.BUILD, exist_ok=True)
+    src = os.path.join(V.VERIF, "harness", "extract11")
+    binp = os.path.join(V.BUILD, "extract11")
+    tmp = binp + ".%d" % os.getpid()
+    rc, out, err = V.run(["go", "build", "-o", tmp, "."], cwd=src, env=V.GOENV, timeout=600)
+    if rc != 0:
+        return False, "census extractor does not build: " + (out + err)[-800:]
+    os.replace(tmp, binp)
+    lean = os.path.join(V.LEAN, "FV", "Generated", "Census11.lean")
+    tmpl = lean + ".%d.tmp" % os.getpid()
+    rc, out, err = V.run([binp, V.REPO, os.path.join(V.VERIF, "known", "c11_census_expected.json"), tmpl,
+                          os.path.join(V.BUILD, "c11_census.json")], timeout=120)
+    try:
+        new = open(tmpl).read()
+        if not os.path.exists(lean) or open(lean).read() != new:
+            os.replace(tmpl, lean)
+        else:
+            os.unlink(tmpl)
+    except OSError:
+        pass
+    if rc != 0:
+        return False, (out + err).strip()[-1200:]
+    return True, ""
+
+
 PROP = {
     "props_module": "FV.Props.C11",
+    "generate": [generate_census11],
     "builders": {"cc": V.build_cc, "frugal": V.build_frugal, "javaparse": build_javaparse},
-    "suites": [("cc", "c11", {"quick": 24, "thorough": 480})],
-    "suite_kind": {"c11": "cc", "cc": "cc"},
-    "rule": "stub",
-    "trusted": [],
-    "level_text": "stub",
-    "level_note": "stub",
-    "assumptions": [],
+    "suites": [("cc", "c11", {"quick": 96, "thorough": 960}), ("cc", "c11ops", {"quick": 4000, "thorough": 150000})],
+    "suite_kind": {"c11": "cc", "c11ops": "cc"},
+    "rule": "Suite c11, per program index: (A) one random VALID multi-file IDL program (1-3 files in an include DAG; enums, typedefs incl. acyclic chains of up to 60 hops declared in either order, structs/unions/exceptions with 0-6 fields of base, named, include-qualified and nested container types, defaults, constants of every type incl. references, services with extends (also across includes), oneway, throws, annotations, docstrings, scopes with static and variable prefixes, namespaces; identifier-shape family: lower, Title, snake, camel, Pascal, SCREAMING, digit suffix, leading/trailing/double/multiple underscores, single letters, reserved-word-adjacent names) compiled by the real binary for all 8 targets x {no options, one random option subset}; (B) one program with ONE injected invalidity of a kind validate/parseFrugal checks (28 kinds, cycled), one with a kind nothing checks (12 kinds), two mutated texts (span delete/insert token/bit flip/truncate/duplicate/line delete/line swap) and one arbitrary text (random bytes, token soup, nesting 20-200 deep), each compiled for one random target. Per valid program also: the in-process front-end verdict (op val) and UnderlyingType of every typedef name, include-qualified typedef name and a sample of field types (op und). Suite c11ops: random strings over an identifier/option alphabet through snakeToCamel, title, titleServiceName, LowercaseFirstLetter, includeNameToReference, CleanGenParam. Excluded from the valid stream, each a recorded finding with a replayed witness: see KNOWN_FINDINGS.txt property=C11 (18 ids).",
+    "trusted": ["Modelled, not verified: Go's run-time checks on index/slice expressions (FV.Compile.goIndex/goSliceTo), strings.Split/FieldsFunc/ToUpper on ASCII, Go map assignment (last wins)",
+                "harness/extract11 (go/ast census extractor) and its committed expectation known/c11_census_expected.json (each site read by hand)",
+                "External parsers/compilers used as well-formedness judges: go build against /repo/lib/go, CPython compile() (2.7.18 for py and py:tornado, 3.x for py:asyncio), javac's parser (JavacTask.parse, no attribution), encoding/json, Python's html.parser (tag balance), our bracket/string/comment balance lexer for Dart",
+                "The harness's classification of a run (exit status, output patterns for Go runtime crashes, 20 s watchdog; an exit-1 run is re-executed in-process under recover to tell a recovered panic from a returned error exactly)"],
+    "level_text": "Theorems (Lean 4) about an executable model of the shared front end (parseFrugal's include traversal, (*Frugal).validate with all its parts in code order, isValidType, the typedef step shared by UnderlyingType and the new cycle check, UnderlyingType itself with running out of stack as an explicit outcome) and of the Go casing path (snakeToCamel, title, titleServiceName, LowercaseFirstLetter, includeNameToReference, CleanGenParam) that keeps Go's run-time checks as explicit panic outcomes: for EVERY identifier string the Go casing helpers and -gen parsing never panic; on EVERY validated file typedef resolution terminates for every type within (number of visible typedefs + 2) frames, so the stack overflow is unreachable; EVERY typedef cycle of any length (also through includes) is rejected with an error, never a panic; on every validated file no modelled panic site of the Go path is reachable; validate accepts exactly when its ten parts do; every syntactically partial operation of main.go and compiler/** (173 sites, regenerated from source on every run) is classified. Tied to the code by in-process correspondence of the real functions with the model (verdict and error class of parse+validate on valid and injected-invalid programs, UnderlyingType results, casing helpers on random strings) and by compiling random valid / invalid / mutated / arbitrary inputs with the real binary for all 8 targets, judging every emitted file with an external parser or compiler.",
+    "level_note": "PARTIAL, named plainly. (1) That every emitted file is well-formed source for its target is NOT a Lean theorem (no formal grammar of Go/Java/Dart/Python/HTML here): it is validated on the sampled programs only, by external parsers/compilers (Go: full type-check with go build against /repo/lib/go; Python: compile(); Java: javac parse only, no attribution; JSON: parse; HTML: tag balance; Dart: bracket/string/comment balance only — no Dart SDK in the sandbox). (2) The theorems cover panic-freedom and termination of the MODELLED sites of the shared front end and of the Go casing path; the Java/Dart/Python/HTML/JSON generator bodies are censused (every panic(, unchecked type assertion, constant index/slice, self-recursion is classified, each site read) but modelled only where shared (validate, UnderlyingType, LowercaseFirstLetter). compiler/parser/grammar.peg.go (generated by pigeon; its action code's assertions are shape-guaranteed by the grammar rules) is outside the census; it is exercised by the mutated/arbitrary texts. (3) c11_valid_front_ok_partial takes 'valid' as 'validate returned nil'; a declarative Valid predicate with Valid => validate = ok is missing as a theorem (checked per generated program by op val). c11_invalid_diagnosed_partial covers the type-resolution kinds; the duplicate-name/id, oneway and include kinds are implemented in the model and compared by error CLASS with the real verdict on injected invalidities, not proved. (4) recovered-panic (main.go's recover -> 'Failed to generate', exit 1) is tolerated ONLY for the invalidity kinds nothing validates — read off the code: constant/default values that do not fit their type, unresolved Enum.VALUE / constant references inside values, duplicate struct/enum/typedef/constant/field/enum-value names, unknown or cyclic extends, duplicate ids in throws; for those even exit 0 is tolerated and recorded as finding unchecked-semantic-errors; a crash, hang or silent failure is never tolerated; for every kind validate/parseFrugal checks (28) the oracle demands a diagnostic. On mutated/arbitrary texts a recovered panic is tolerated only when its message is one of the explicit panic(...) calls of constant-value generation (census class const-value); run-time errors (index, nil, slice) are violations. (5) 18 recorded findings restrict the valid stream (KNOWN_FINDINGS.txt); each witness is replayed on every run.",
+    "assumptions": ["identifiers avoid target-language reserved words and the names of locals/members of the generated code (prefix variable topic/prefix/op, method c/methods, argument args/result)",
+                    "declared names of one scope are distinct after removing underscores and case (no two declarations collide under any target's case conversion)",
+                    "ASCII identifiers and string constants (the grammar's Identifier is ASCII)",
+                    "container nesting depth <= 200 in arbitrary texts: generators take time cubic in the nesting depth (depth 1000: 12-34 s), not treated as a hang",
+                    "a service does not redefine a method of a service it extends; a method throws each exception type once",
+                    "options use_vendor (needs vendor annotations) and thrift_import/frugal_import are not exercised"],
+    "technique": "Lean 4 theorems about a hand-written executable model with explicit panic outcomes; model tied to /repo by in-process differential correspondence, a regenerated census of partial operations, and whole-compiler runs judged by external parsers/compilers",
 }
